@@ -341,6 +341,9 @@ def _on_side(an, bb, is_off):
 # sensitivity pack (thorough tier)
 _U = 'src/index/updater.rs'
 MUTANTS = [
+  {'name': 'seeded-C01-a', 'patch': 'C01-a/patch.diff', 'expect': ('R1.6', 'index_transaction_sats', 'pending is appended before the rest')},
+  {'name': 'seeded-C01-b', 'patch': 'C01-b/patch.diff', 'expect': ('R1.5', 'index_utxo_entries', 'merged(existing, new)')},
+
   {'name': 'transactions indexed in block order (coinbase first, before the fees exist)', 'file': _U, 'old': '      .enumerate()\n      .skip(1)\n      .chain(block.txdata.iter().enumerate().take(1))\n', 'new': '      .enumerate()\n', 'expect': ('R1.2', 'index_utxo_entries', '')},
   {'name': 'fees of ordinary transactions routed to the lost sats instead of the coinbase', 'file': _U, 'old': '          leftover_sat_ranges = &mut coinbase_inputs;', 'new': '          leftover_sat_ranges = &mut lost_sat_ranges;', 'expect': ('R1.3', 'index_utxo_entries', '')},
   {'name': 'subsidy range never offered to the coinbase', 'file': _U, 'old': '        coinbase_inputs.extend(SatRange::store((start.n(), (start + h.subsidy()).n())));\n', 'new': '        let _ = start;\n', 'expect': ('R1.1', 'index_utxo_entries', '')},
